@@ -41,7 +41,7 @@ EXHAUSTIVE = True
 CASE_TIMEOUT = 10.0
 RULE = ("exhaustive: every ordered bus population of 0..3 devices over {target address, other address} x programming mode x "
         "{answers, silent, refuses} (1885 populations) through nm_individual_address_write, nm_individual_address_check, "
-        "nm_individual_address_read (raise_if_multiple on/off) and dm_restart; every population of 0..3 devices over "
+        "nm_individual_address_read (raise_if_multiple on/off) and dm_restart, write and check additionally with the reactions delivered inside the causing send; every population of 0..3 devices over "
         "{2 addresses} x {2 serials} x {chatty, quiet} x {takes, ignores the write} through the serial-number read (both serials) and write (both serials x "
         "both addresses) procedures; dmp_authorize2_r_co over all 16x16 (free level, key level) pairs and all 16^3 answer triples "
         "of levels {0,1,2,3,7,15}; non-trivial = every case (all distinct)")
@@ -49,7 +49,8 @@ TRUSTED = ["model XknxVerif.Model.Procedures hand-written (bus primitives + proc
            "the simulated bus in harness/cases/C44.py: devices react to the telegrams recorded by a stub cEMI handler, "
            "reactions delivered by loop.call_soon in bus order; timeouts on harness/vloop.py",
            "the point-to-point layer below the procedures is the real xknx.management.management (C43) including its fix: commits"]
-ASSUMPTIONS = ["a device's reaction reaches xknx after the send of the causing telegram has returned (not inside it)",
+ASSUMPTIONS = ["a device's reaction is processed either one loop iteration after the causing send returned or (write/check) inside it; "
+               "other interleavings of reactions with the procedure are not enumerated",
                "devices are deterministic: same request, same answer"]
 
 T_ADDR = IndividualAddress("1.1.1")
@@ -87,8 +88,8 @@ class Dev:
 class Bus:
     """Stub for xknx.cemi_handler + the devices behind it."""
 
-    def __init__(self, xknx, loop, devs):
-        self.xknx, self.loop, self.devs = xknx, loop, devs
+    def __init__(self, xknx, loop, devs, sync=False):
+        self.xknx, self.loop, self.devs, self.sync = xknx, loop, devs, sync
         self.sent = []
         self.raised = []
 
@@ -101,7 +102,10 @@ class Bus:
                 self.xknx.management.process(tg)
             except Exception as e:  # noqa: BLE001
                 self.raised.append(type(e).__name__)
-        self.loop.call_soon(run)
+        if self.sync:
+            run()       # processed while the causing send is still awaited
+        else:
+            self.loop.call_soon(run)
 
     async def send_telegram(self, tg):
         t, p = tg.tpci, tg.payload
@@ -187,6 +191,8 @@ def classify(e):
 async def scenario(loop, case):
     t = case["op"].split()
     proc = t[1]
+    sync = proc in ("writes", "checks")
+    proc = {"writes": "write", "checks": "check"}.get(proc, proc)
     kind = "serial" if proc in ("sread", "swrite") else "addr"
     xknx = XKNX()
     if proc in ("auth2", "auth2seq"):
@@ -197,7 +203,7 @@ async def scenario(loop, case):
             devs[0].answers = [int(t[2]), int(t[3]), int(t[4])]
     else:
         devs = parse_pop(t[-1], kind)
-    bus = Bus(xknx, loop, devs)
+    bus = Bus(xknx, loop, devs, sync)
     xknx.cemi_handler = bus
     try:
         if proc == "write":
@@ -244,7 +250,7 @@ def run_impl(case):
 
 def oracle(case, out):
     t = case["op"].split()
-    proc = t[1]
+    proc = {"writes": "write", "checks": "check"}.get(t[1], t[1])
     tels, rest = out.split(" -> ")
     tels, acks = tels.split(" +")
     res, pop_after = rest.split(" | ")
@@ -361,6 +367,10 @@ def generate(rng, tier):
         yield {"op": f"proc read 1 {p}"}
     for p in pops(KINDS, 2):
         yield {"op": f"proc restart {p}"}
+    # the same with the devices' reactions processed while the causing send is still awaited
+    for p in pops(KINDS):
+        yield {"op": f"proc writes {p}"}
+        yield {"op": f"proc checks {p}"}
     for p in pops(SKINDS, 3 if tier != "quick" else 2):
         for s in "12":
             yield {"op": f"proc sread {s} {p}"}
